@@ -1,0 +1,136 @@
+//go:build verif
+
+package main
+
+// Verification driver (build tag verif); not part of the normal build.
+//
+// When ZOEKT_VERIF_DRIVER=c15 is set, init() serves a JSON line protocol on stdin/stdout instead of running
+// the command: it is the only way to call this package's unexported indexArg / fileAggregator.add /
+// newIgnoreMatcher in-process.  One request per line, one response per line.
+
+import (
+	"bufio"
+	"encoding/json"
+	"fmt"
+	"io"
+	"log"
+	"os"
+	"path/filepath"
+	"runtime/debug"
+
+	"github.com/sourcegraph/zoekt"
+	"github.com/sourcegraph/zoekt/index"
+)
+
+type verifC15Req struct {
+	Op         string   `json:"op"` // "walk" | "index"
+	Dir        string   `json:"dir"`
+	IndexDir   string   `json:"index_dir"`
+	IgnoreDirs []string `json:"ignore_dirs"`
+	SizeMax    int      `json:"size_max"`
+	LargeFiles []string `json:"large_files"`
+	Name       string   `json:"name"`
+	Branches   []string `json:"branches"`
+}
+
+type verifC15File struct {
+	Name    string `json:"name"`
+	Size    int64  `json:"size"`
+	Symlink bool   `json:"symlink"`
+}
+
+type verifC15Resp struct {
+	Err   string         `json:"err,omitempty"`
+	Panic string         `json:"panic,omitempty"`
+	Root  string         `json:"root,omitempty"`
+	Files []verifC15File `json:"files,omitempty"`
+}
+
+func init() {
+	if os.Getenv("ZOEKT_VERIF_DRIVER") != "c15" {
+		return
+	}
+	log.SetOutput(io.Discard)
+	in := bufio.NewReaderSize(os.Stdin, 1<<20)
+	out := bufio.NewWriter(os.Stdout)
+	for {
+		line, err := in.ReadBytes('\n')
+		if len(line) > 0 {
+			var req verifC15Req
+			var resp verifC15Resp
+			if jerr := json.Unmarshal(line, &req); jerr != nil {
+				resp.Err = "bad request: " + jerr.Error()
+			} else {
+				resp = verifC15Serve(req)
+			}
+			b, _ := json.Marshal(resp)
+			out.Write(b)
+			out.WriteByte('\n')
+			out.Flush()
+		}
+		if err != nil {
+			break
+		}
+	}
+	os.Exit(0)
+}
+
+func verifC15Serve(req verifC15Req) (resp verifC15Resp) {
+	defer func() {
+		if r := recover(); r != nil {
+			resp.Panic = fmt.Sprintf("%v\n%s", r, debug.Stack())
+		}
+	}()
+	ignoreDirs := map[string]struct{}{}
+	for _, d := range req.IgnoreDirs {
+		ignoreDirs[d] = struct{}{}
+	}
+	switch req.Op {
+	case "walk":
+		// the walk of indexArg without the builder: same matcher construction, same aggregator, same Walk
+		dir, err := filepath.Abs(filepath.Clean(req.Dir))
+		if err != nil {
+			resp.Err = err.Error()
+			return resp
+		}
+		resp.Root = dir
+		m, err := newIgnoreMatcher(dir)
+		if err != nil {
+			resp.Err = err.Error()
+			return resp
+		}
+		comm := make(chan fileInfo, 100)
+		agg := fileAggregator{ignoreDirs: ignoreDirs, ignore: m, root: dir, sink: comm, sizeMax: int64(req.SizeMax)}
+		var walkErr error
+		go func() {
+			walkErr = filepath.Walk(dir, agg.add)
+			close(comm)
+		}()
+		for f := range comm {
+			resp.Files = append(resp.Files, verifC15File{Name: f.name, Size: f.size, Symlink: f.isSymlink})
+		}
+		if walkErr != nil {
+			resp.Err = walkErr.Error()
+		}
+		return resp
+	case "index":
+		opts := index.Options{
+			IndexDir:     req.IndexDir,
+			SizeMax:      req.SizeMax,
+			LargeFiles:   req.LargeFiles,
+			DisableCTags: true,
+		}
+		opts.RepositoryDescription = zoekt.Repository{Name: req.Name, Source: req.Dir}
+		for _, b := range req.Branches {
+			opts.RepositoryDescription.Branches = append(opts.RepositoryDescription.Branches, zoekt.RepositoryBranch{Name: b, Version: "v"})
+		}
+		opts.SetDefaults()
+		if err := indexArg(req.Dir, opts, ignoreDirs); err != nil {
+			resp.Err = err.Error()
+		}
+		return resp
+	default:
+		resp.Err = "unknown op " + req.Op
+		return resp
+	}
+}
